@@ -703,7 +703,10 @@ def run(chk):
     if c.degraded:
         # the broken tie itself, listed after the concrete failing inputs the streams found (if any) but within the printed five
         chk.cov["tie_broken"] = c.degraded
-        chk.violations.insert(min(len(chk.violations), 4), (
+        found = [v for v in chk.violations if v[2]]
+        chk.cov["concrete_violations_found"] = len(found)
+        chk.violations = found[:4] + [v for v in chk.violations if not v[2]]     # (vlib prints five, concrete ones first)
+        chk.violations.insert(len(found[:4]), (
             "the driver side of the C18 tables can no longer be read from the source (%s): the Coq model cannot be instantiated and "
             "Props/C18 does not build; the streams ran with the usage-text / property-text reference only" % c.degraded,
             {"kind": "broken-tie", "error": c.degraded, "proof_failures": (chk.proof or {}).get("failures")}, False))
